@@ -21,6 +21,7 @@ type Thread struct {
 	started bool
 	fn      func()
 	nkids   int
+	streak  int // consecutive scheduling points passed while other threads were enabled (fairness)
 	// timers
 	isTimer  bool
 	deadline int64
@@ -58,6 +59,7 @@ type Sched struct {
 	noYield  int
 	quiet    bool // scheduling/deviation choices take their default and are not recorded (set-up and epilogue phases)
 	Clock    int  // logical event clock for harness oracles (Tick)
+	Demotions int // fairness demotions in this execution
 }
 
 var S *Sched
@@ -162,7 +164,20 @@ func (s *Sched) enabledList() []*Thread {
 func (s *Sched) pickNext(curEnabled bool) *Thread {
 	en := s.enabledList()
 	var opts []*Thread
-	if curEnabled {
+	// fairness (spin loops): a thread that has passed SpinLimit scheduling points in a row while others could run is
+	// waiting for one of them (poll / retry loop); it has to let one of the others run at this point, so that the
+	// default schedule - and every schedule derived from it - makes progress. Deterministic, costs no deviation.
+	if curEnabled && len(en) > 0 {
+		s.cur.streak++
+	} else {
+		s.cur.streak = 0
+	}
+	demote := s.cur.streak > SpinLimit
+	if demote {
+		s.cur.streak = 0
+		s.Demotions++
+	}
+	if curEnabled && !demote {
 		opts = append(opts, s.cur)
 	}
 	// round-robin: threads after the current one come first
@@ -172,6 +187,11 @@ func (s *Sched) pickNext(curEnabled bool) *Thread {
 	}
 	opts = append(opts, en[k:]...)
 	opts = append(opts, en[:k]...)
+	if demote {
+		// the spinner itself is not an option here: further iterations of a poll loop that nobody interleaves with
+		// only repeat the same reads (stuttering), so no behaviour is lost
+		return opts[s.choose(len(opts), false, "sched-fair")]
+	}
 	if len(opts) == 0 {
 		// only idle threads (Quiesce waiters) may run now
 		for _, t := range s.threads {
@@ -191,6 +211,9 @@ func (s *Sched) pickNext(curEnabled bool) *Thread {
 }
 
 func curEnabledIdle(s *Sched) bool { return s.cur.idle }
+
+// SpinLimit: consecutive scheduling points one thread may pass, with other threads enabled, before it is demoted once.
+const SpinLimit = 400
 
 // Yield parks the current thread before a visible operation.
 func Yield(enabled func() bool, desc string) {
@@ -228,6 +251,9 @@ func Yield(enabled func() bool, desc string) {
 		ce = false
 	}
 	next := s.pickNext(ce)
+	if next != t {
+		t.streak = 0
+	}
 	if next == nil {
 		s.Deadlock = true
 		s.endExecution()
